@@ -8,3 +8,308 @@ fn ep() -> std::mem::ManuallyDrop<Endpoint<VhostUserMsgHeader<FrontendReq>>> {
     std::mem::ManuallyDrop::new(Endpoint::from_stream(unsafe { UnixStream::from_raw_fd(5) }))
 }
 
+macro_rules! c_stubs {
+    ($(#[$m:meta])* fn $name:ident() $body:block) => {
+        $(#[$m])*
+        #[kani::proof]
+        #[kani::stub(vmm_sys_util::sock_ctrl_msg::raw_recvmsg, g::ghost_recvmsg)]
+        #[kani::stub(vmm_sys_util::sock_ctrl_msg::raw_sendmsg, g::ghost_sendmsg)]
+        #[kani::stub(libc::close, g::ghost_close)]
+        #[kani::stub(<std::os::fd::OwnedFd as std::ops::Drop>::drop, g::ghost_ownedfd_drop)]
+        #[kani::stub(std::alloc::handle_alloc_error, g::ghost_alloc_error)]
+        fn $name() $body
+    };
+}
+
+// @harness props=C08 tier=quick native=yes bound="get_sub_iovs_offset: 0..=3 lengths, all usize lengths whose sum does not overflow, all skip sizes"
+#[kani::proof]
+#[kani::unwind(5)]
+fn c08_u_sub_iovs_offset() {
+    let lens: [usize; 3] = kani::any();
+    let n: usize = kani::any();
+    kani::assume(n <= 3);
+    let skip: usize = kani::any();
+    // lengths of real buffers: their sum fits in usize
+    kani::assume(lens[0] <= usize::MAX / 4 && lens[1] <= usize::MAX / 4 && lens[2] <= usize::MAX / 4);
+    let (k, off) = get_sub_iovs_offset(&lens[..n], skip);
+    // reference: first index whose prefix sum exceeds skip
+    let p0 = if n > 0 { lens[0] } else { 0 };
+    let p1 = if n > 1 { p0 + lens[1] } else { p0 };
+    let p2 = if n > 2 { p1 + lens[2] } else { p1 };
+    let (ek, eoff) = if n > 0 && skip < p0 { (0, skip) }
+        else if n > 1 && skip < p1 { (1, skip - p0) }
+        else if n > 2 && skip < p2 { (2, skip - p1) }
+        else { (n, skip - p2) };
+    kani::cover!(k == 1 && off > 0);
+    assert!(k == ek && off == eoff, "C08: offset of the resume point inside the scatter list");
+}
+
+fn data_split(cut: usize) {
+    let mut e = ep();
+    let body: u64 = kani::any();
+    // SAFETY: ghost state
+    unsafe {
+        g::put64(0, body);
+        g::G.rx_len = 8;
+        g::G.rx_cut[0] = cut;
+        g::G.rx_closed = false;
+    }
+    let r = e.recv_data(8);
+    kani::cover!(r.is_ok());
+    match &r {
+        Ok((n, v)) => {
+            assert!(*n == 8, "C08: a body split across segments must be read completely");
+            assert!(spec::rd64(&v[..], 0) == body, "C08: same bytes whatever the segmentation");
+        }
+        Err(_) => assert!(false, "C08: segmentation is not an error"),
+    }
+    // SAFETY: ghost state
+    unsafe { assert!(!g::G.blocked, "C08: never read beyond the requested length") };
+    std::mem::forget(r);
+}
+fn data_truncated(c: usize) {
+    let mut e = ep();
+    // SAFETY: ghost state
+    unsafe {
+        g::put64(0, kani::any());
+        g::G.rx_len = c;
+        g::G.rx_closed = true;
+    }
+    let r = e.recv_data(8);
+    kani::cover!(r.is_ok());
+    if let Ok((n, _)) = &r {
+        assert!(*n == c && *n < 8, "C08: a truncated body is reported short (callers turn that into an error)");
+    }
+    std::mem::forget(r);
+}
+
+// The cut positions / accept sizes below are concrete per harness: with symbolic cuts the resume offsets
+// inside recv_into_iovec_all/send_iovec_all become symbolic and CBMC can no longer bound those loops
+// (measured: 1.6M steps and out of memory for a 12-byte header).  Values: see each instantiation.
+fn hdr_split(c0: usize, c1: usize) {
+    let mut e = ep();
+    let flags: u32 = kani::any();
+    let size: u32 = kani::any();
+    let code: u32 = 8;
+    let nfds: usize = kani::any();
+    kani::assume(nfds <= 2);
+    // SAFETY: ghost state
+    unsafe {
+        g::put_hdr(0, code, flags, size);
+        g::G.rx_len = 12;
+        g::G.rx_cut = [c0, c1];
+        g::G.rx_nfds = nfds;
+        g::G.rx_fd_call = 1;
+        g::G.rx_closed = false;
+    }
+    let r = e.recv_header();
+    let valid = spec::valid_header(true, flags, size);
+    kani::cover!(r.is_ok() && nfds == 2);
+    match &r {
+        Ok((h, files)) => {
+            assert!(valid, "C05/C20: invalid header accepted");
+            assert!(h.get_size() == size && h.is_need_reply() == (flags & 8 != 0) && h.is_reply() == (flags & 4 != 0), "C08: same header whatever the segmentation");
+            assert!(h.get_code().map(|c| c as u32 == code).unwrap_or(false));
+            assert!(files.as_ref().map_or(0, |f| f.len()) == nfds, "C08: descriptors of the first segment are kept");
+        }
+        Err(_) => assert!(!valid, "C08: a well-formed header must be accepted whatever the segmentation"),
+    }
+    // SAFETY: ghost state
+    unsafe { assert!(!g::G.blocked && g::G.rx_pos == 12, "C08: exactly the header is consumed") };
+    std::mem::forget(r);
+}
+fn hdr_truncated(c: usize) {
+    let mut e = ep();
+    // SAFETY: ghost state
+    unsafe {
+        g::put_hdr(0, 8, 1, 8);
+        g::G.rx_len = c;
+        g::G.rx_closed = true;
+    }
+    let r = e.recv_header();
+    kani::cover!(r.is_err());
+    match &r {
+        Ok(_) => assert!(false, "C08: truncated header accepted"),
+        Err(Error::Disconnected) => assert!(c == 0, "C08: 'disconnected' only at a message boundary"),
+        Err(Error::PartialMessage) => assert!(c > 0),
+        Err(_) => assert!(false, "C08: unexpected error class for a truncated header"),
+    }
+    std::mem::forget(r);
+}
+fn body_split(c0: usize, c1: usize) {
+    let mut e = ep();
+    let val: u64 = kani::any();
+    let nfds: usize = kani::any();
+    kani::assume(nfds <= 2);
+    // SAFETY: ghost state
+    unsafe {
+        g::put_hdr(0, 1, 5, 8);
+        g::put64(12, val);
+        g::G.rx_len = 20;
+        g::G.rx_cut = [c0, c1];
+        g::G.rx_nfds = nfds;
+        g::G.rx_closed = false;
+    }
+    let r = e.recv_body::<VhostUserU64>();
+    kani::cover!(r.is_ok());
+    match &r {
+        Ok((h, b, files)) => {
+            assert!(h.get_size() == 8 && h.is_reply());
+            assert!(b.value == val, "C08: same body whatever the segmentation");
+            assert!(files.as_ref().map_or(0, |f| f.len()) == nfds);
+        }
+        Err(_) => assert!(false, "C08: segmentation is not an error"),
+    }
+    // SAFETY: ghost state
+    unsafe { assert!(!g::G.blocked && g::G.rx_pos == 20) };
+    std::mem::forget(r);
+}
+fn body_truncated(c: usize) {
+    let mut e = ep();
+    // SAFETY: ghost state
+    unsafe {
+        g::put_hdr(0, 1, 5, 8);
+        g::put64(12, kani::any());
+        g::G.rx_len = c;
+        g::G.rx_closed = true;
+    }
+    let r = e.recv_body::<VhostUserU64>();
+    kani::cover!(r.is_err());
+    assert!(r.is_err(), "C08: a truncated reply must be an error");
+    std::mem::forget(r);
+}
+fn send_partial(a: usize) {
+    let mut e = ep();
+    let flags: u32 = kani::any();
+    let val: u64 = kani::any();
+    let hdr = VhostUserMsgHeader::<FrontendReq>::new(FrontendReq::SET_FEATURES, flags, 8);
+    let body = VhostUserU64::new(val);
+    let nfds: usize = kani::any();
+    kani::assume(nfds <= 2);
+    let fds = [70, 71];
+    // SAFETY: ghost state
+    unsafe { g::G.tx_accept = a };
+    let r = e.send_message(&hdr, &body, if nfds == 0 { None } else { Some(&fds[..nfds]) });
+    kani::cover!(r.is_ok() && nfds == 2);
+    assert!(r.is_ok(), "C08: partial accepts are not an error");
+    // SAFETY: ghost state
+    unsafe {
+        assert!(g::G.tx_len == 20, "C08: every byte exactly once");
+        assert!(g::tx32(0) == 2 && g::tx32(4) == ((flags & 0xc) | 1) && g::tx32(8) == 8 && g::tx64(12) == val, "C08/C01: bytes in order");
+        assert!(g::G.tx_first_nfds == nfds && !g::G.tx_late_fds, "C08: descriptors with the first byte only");
+        assert!(g::G.tx_calls == (20 + a - 1) / a);
+    }
+    std::mem::forget(r);
+}
+fn send_retry(errno: i32, at: usize) {
+    let mut e = ep();
+    let val: u64 = kani::any();
+    let hdr = VhostUserMsgHeader::<FrontendReq>::new(FrontendReq::SET_FEATURES, 0, 8);
+    let body = VhostUserU64::new(val);
+    let fds = [70];
+    // SAFETY: ghost state
+    unsafe {
+        g::G.tx_accept = 13;
+        g::G.tx_err_at_call = at;
+        g::G.tx_errno = errno;
+    }
+    let r = e.send_message(&hdr, &body, Some(&fds[..]));
+    kani::cover!(r.is_ok());
+    assert!(r.is_ok(), "C08: transient socket errors are retried");
+    // SAFETY: ghost state
+    unsafe {
+        assert!(g::G.tx_len == 20 && g::tx32(0) == 2 && g::tx64(12) == val, "C08: bytes once, in order");
+        assert!(g::G.tx_first_nfds == 1 && !g::G.tx_late_fds, "C08: descriptors accompany the first byte, once");
+        assert!(g::G.tx_calls == 2 && g::G.tx_attempts == 3);
+    }
+    std::mem::forget(r);
+}
+macro_rules! c08 {
+    ($name:ident, $unwind:expr, $call:expr) => {
+        #[kani::proof]
+        #[kani::unwind($unwind)]
+        #[kani::stub(vmm_sys_util::sock_ctrl_msg::raw_recvmsg, g::ghost_recvmsg)]
+        #[kani::stub(vmm_sys_util::sock_ctrl_msg::raw_sendmsg, g::ghost_sendmsg)]
+        #[kani::stub(libc::close, g::ghost_close)]
+        #[kani::stub(<std::os::fd::OwnedFd as std::ops::Drop>::drop, g::ghost_ownedfd_drop)]
+        #[kani::stub(std::alloc::handle_alloc_error, g::ghost_alloc_error)]
+        fn $name() {
+            $call
+        }
+    };
+}
+// ---- instantiations (generated once by hand-run script; edit freely)
+// @harness props=C08,C09 tier=quick reach=off bound="recv_header: 12 bytes delivered in segments cut at 1 and 12; all flags/size words, 0..=2 descriptors on the first segment" stubs="vmm-sys-util raw_recvmsg/raw_sendmsg (ghost stream socket with delivery cuts / partial accepts), close, OwnedFd::drop"
+c08!(c08_u_hdr_split_1_12, 6, hdr_split(1, 12));
+// @harness props=C08,C09 tier=quick reach=off bound="recv_header: 12 bytes delivered in segments cut at 4 and 8; all flags/size words, 0..=2 descriptors on the first segment" stubs="vmm-sys-util raw_recvmsg/raw_sendmsg (ghost stream socket with delivery cuts / partial accepts), close, OwnedFd::drop"
+c08!(c08_u_hdr_split_4_8, 6, hdr_split(4, 8));
+// @harness props=C08,C09 tier=quick reach=off bound="recv_header: 12 bytes delivered in segments cut at 11 and 12; all flags/size words, 0..=2 descriptors on the first segment" stubs="vmm-sys-util raw_recvmsg/raw_sendmsg (ghost stream socket with delivery cuts / partial accepts), close, OwnedFd::drop"
+c08!(c08_u_hdr_split_11_12, 6, hdr_split(11, 12));
+// @harness props=C08,C09 tier=thorough reach=off bound="recv_header: 12 bytes delivered in segments cut at 6 and 6; all flags/size words, 0..=2 descriptors on the first segment" stubs="vmm-sys-util raw_recvmsg/raw_sendmsg (ghost stream socket with delivery cuts / partial accepts), close, OwnedFd::drop"
+c08!(c08_u_hdr_split_6_6, 6, hdr_split(6, 6));
+// @harness props=C08,C09 tier=thorough reach=off bound="recv_header: 12 bytes delivered in segments cut at 8 and 9; all flags/size words, 0..=2 descriptors on the first segment" stubs="vmm-sys-util raw_recvmsg/raw_sendmsg (ghost stream socket with delivery cuts / partial accepts), close, OwnedFd::drop"
+c08!(c08_u_hdr_split_8_9, 6, hdr_split(8, 9));
+// @harness props=C08,C09 tier=thorough reach=off bound="recv_header: 12 bytes delivered in segments cut at 2 and 3; all flags/size words, 0..=2 descriptors on the first segment" stubs="vmm-sys-util raw_recvmsg/raw_sendmsg (ghost stream socket with delivery cuts / partial accepts), close, OwnedFd::drop"
+c08!(c08_u_hdr_split_2_3, 6, hdr_split(2, 3));
+// @harness props=C08 tier=quick reach=off bound="recv_header: stream ends after 0 bytes" stubs="vmm-sys-util raw_recvmsg/raw_sendmsg (ghost stream socket with delivery cuts / partial accepts), close, OwnedFd::drop"
+c08!(c08_u_hdr_truncated_0, 6, hdr_truncated(0));
+// @harness props=C08 tier=quick reach=off bound="recv_header: stream ends after 1 bytes" stubs="vmm-sys-util raw_recvmsg/raw_sendmsg (ghost stream socket with delivery cuts / partial accepts), close, OwnedFd::drop"
+c08!(c08_u_hdr_truncated_1, 6, hdr_truncated(1));
+// @harness props=C08 tier=quick reach=off bound="recv_header: stream ends after 11 bytes" stubs="vmm-sys-util raw_recvmsg/raw_sendmsg (ghost stream socket with delivery cuts / partial accepts), close, OwnedFd::drop"
+c08!(c08_u_hdr_truncated_11, 6, hdr_truncated(11));
+// @harness props=C08 tier=thorough reach=off bound="recv_header: stream ends after 6 bytes" stubs="vmm-sys-util raw_recvmsg/raw_sendmsg (ghost stream socket with delivery cuts / partial accepts), close, OwnedFd::drop"
+c08!(c08_u_hdr_truncated_6, 6, hdr_truncated(6));
+// @harness props=C08,C06 tier=quick reach=off bound="recv_body<u64>: 20 bytes (header+body) cut at 12 and 20; all body values, 0..=2 descriptors" stubs="vmm-sys-util raw_recvmsg/raw_sendmsg (ghost stream socket with delivery cuts / partial accepts), close, OwnedFd::drop"
+c08!(c08_u_body_split_12_20, 6, body_split(12, 20));
+// @harness props=C08,C06 tier=quick reach=off bound="recv_body<u64>: 20 bytes (header+body) cut at 5 and 13; all body values, 0..=2 descriptors" stubs="vmm-sys-util raw_recvmsg/raw_sendmsg (ghost stream socket with delivery cuts / partial accepts), close, OwnedFd::drop"
+c08!(c08_u_body_split_5_13, 6, body_split(5, 13));
+// @harness props=C08,C06 tier=thorough reach=off bound="recv_body<u64>: 20 bytes (header+body) cut at 19 and 20; all body values, 0..=2 descriptors" stubs="vmm-sys-util raw_recvmsg/raw_sendmsg (ghost stream socket with delivery cuts / partial accepts), close, OwnedFd::drop"
+c08!(c08_u_body_split_19_20, 6, body_split(19, 20));
+// @harness props=C08,C06 tier=quick reach=off bound="recv_body<u64>: 20 bytes (header+body) cut at 12 and 16; all body values, 0..=2 descriptors" stubs="vmm-sys-util raw_recvmsg/raw_sendmsg (ghost stream socket with delivery cuts / partial accepts), close, OwnedFd::drop"
+c08!(c08_u_body_split_12_16, 6, body_split(12, 16));
+// @harness props=C08,C06 tier=thorough reach=off bound="recv_body<u64>: 20 bytes (header+body) cut at 1 and 2; all body values, 0..=2 descriptors" stubs="vmm-sys-util raw_recvmsg/raw_sendmsg (ghost stream socket with delivery cuts / partial accepts), close, OwnedFd::drop"
+c08!(c08_u_body_split_1_2, 6, body_split(1, 2));
+// @harness props=C08,C06 tier=quick reach=off bound="recv_body<u64>: stream ends after 0 bytes" stubs="vmm-sys-util raw_recvmsg/raw_sendmsg (ghost stream socket with delivery cuts / partial accepts), close, OwnedFd::drop"
+c08!(c08_u_body_truncated_0, 6, body_truncated(0));
+// @harness props=C08,C06 tier=quick reach=off bound="recv_body<u64>: stream ends after 12 bytes" stubs="vmm-sys-util raw_recvmsg/raw_sendmsg (ghost stream socket with delivery cuts / partial accepts), close, OwnedFd::drop"
+c08!(c08_u_body_truncated_12, 6, body_truncated(12));
+// @harness props=C08,C06 tier=quick reach=off bound="recv_body<u64>: stream ends after 19 bytes" stubs="vmm-sys-util raw_recvmsg/raw_sendmsg (ghost stream socket with delivery cuts / partial accepts), close, OwnedFd::drop"
+c08!(c08_u_body_truncated_19, 6, body_truncated(19));
+// @harness props=C08,C06 tier=thorough reach=off bound="recv_body<u64>: stream ends after 5 bytes" stubs="vmm-sys-util raw_recvmsg/raw_sendmsg (ghost stream socket with delivery cuts / partial accepts), close, OwnedFd::drop"
+c08!(c08_u_body_truncated_5, 6, body_truncated(5));
+// @harness props=C08,C01 tier=quick reach=off bound="send_message(header+u64): socket accepts at most 7 bytes per call; all flag/body values, 0..=2 descriptors" stubs="vmm-sys-util raw_recvmsg/raw_sendmsg (ghost stream socket with delivery cuts / partial accepts), close, OwnedFd::drop"
+c08!(c08_u_send_partial_7, 10, send_partial(7));
+// @harness props=C08,C01 tier=quick reach=off bound="send_message(header+u64): socket accepts at most 12 bytes per call; all flag/body values, 0..=2 descriptors" stubs="vmm-sys-util raw_recvmsg/raw_sendmsg (ghost stream socket with delivery cuts / partial accepts), close, OwnedFd::drop"
+c08!(c08_u_send_partial_12, 10, send_partial(12));
+// @harness props=C08,C01 tier=quick reach=off bound="send_message(header+u64): socket accepts at most 19 bytes per call; all flag/body values, 0..=2 descriptors" stubs="vmm-sys-util raw_recvmsg/raw_sendmsg (ghost stream socket with delivery cuts / partial accepts), close, OwnedFd::drop"
+c08!(c08_u_send_partial_19, 10, send_partial(19));
+// @harness props=C08,C01 tier=thorough reach=off bound="send_message(header+u64): socket accepts at most 3 bytes per call; all flag/body values, 0..=2 descriptors" stubs="vmm-sys-util raw_recvmsg/raw_sendmsg (ghost stream socket with delivery cuts / partial accepts), close, OwnedFd::drop"
+c08!(c08_u_send_partial_3, 10, send_partial(3));
+// @harness props=C08,C01 tier=thorough reach=off bound="send_message(header+u64): socket accepts at most 1 bytes per call; all flag/body values, 0..=2 descriptors" stubs="vmm-sys-util raw_recvmsg/raw_sendmsg (ghost stream socket with delivery cuts / partial accepts), close, OwnedFd::drop"
+c08!(c08_u_send_partial_1, 24, send_partial(1));
+// @harness props=C08 tier=quick reach=off bound="send_message(header+u64): send call 1 fails once with EAGAIN, 13 bytes accepted per call" stubs="vmm-sys-util raw_recvmsg/raw_sendmsg (ghost stream socket with delivery cuts / partial accepts), close, OwnedFd::drop"
+c08!(c08_u_send_retry_eagain_1, 4, send_retry(libc::EAGAIN, 1));
+// @harness props=C08 tier=thorough reach=off bound="send_message(header+u64): send call 2 fails once with EAGAIN, 13 bytes accepted per call" stubs="vmm-sys-util raw_recvmsg/raw_sendmsg (ghost stream socket with delivery cuts / partial accepts), close, OwnedFd::drop"
+c08!(c08_u_send_retry_eagain_2, 6, send_retry(libc::EAGAIN, 2));
+// @harness props=C08 tier=thorough reach=off bound="send_message(header+u64): send call 1 fails once with EINTR, 13 bytes accepted per call" stubs="vmm-sys-util raw_recvmsg/raw_sendmsg (ghost stream socket with delivery cuts / partial accepts), close, OwnedFd::drop"
+c08!(c08_u_send_retry_eintr_1, 6, send_retry(libc::EINTR, 1));
+// @harness props=C08 tier=quick reach=off bound="send_message(header+u64): send call 2 fails once with EINTR, 13 bytes accepted per call" stubs="vmm-sys-util raw_recvmsg/raw_sendmsg (ghost stream socket with delivery cuts / partial accepts), close, OwnedFd::drop"
+c08!(c08_u_send_retry_eintr_2, 4, send_retry(libc::EINTR, 2));
+// @harness props=C08 tier=thorough reach=off bound="send_message(header+u64): send call 1 fails once with ENOBUFS, 13 bytes accepted per call" stubs="vmm-sys-util raw_recvmsg/raw_sendmsg (ghost stream socket with delivery cuts / partial accepts), close, OwnedFd::drop"
+c08!(c08_u_send_retry_enobufs_1, 6, send_retry(libc::ENOBUFS, 1));
+// @harness props=C08 tier=thorough reach=off bound="send_message(header+u64): send call 2 fails once with ENOBUFS, 13 bytes accepted per call" stubs="vmm-sys-util raw_recvmsg/raw_sendmsg (ghost stream socket with delivery cuts / partial accepts), close, OwnedFd::drop"
+c08!(c08_u_send_retry_enobufs_2, 6, send_retry(libc::ENOBUFS, 2));
+// @harness props=C08 tier=quick reach=off bound="recv_data(8): request body delivered in two segments cut at byte 1; all body values" stubs="vmm-sys-util raw_recvmsg/raw_sendmsg (ghost stream socket with delivery cuts / partial accepts), close, OwnedFd::drop"
+c08!(c08_u_data_split_1, 5, data_split(1));
+// @harness props=C08 tier=quick reach=off bound="recv_data(8): request body delivered in two segments cut at byte 4; all body values" stubs="vmm-sys-util raw_recvmsg/raw_sendmsg (ghost stream socket with delivery cuts / partial accepts), close, OwnedFd::drop"
+c08!(c08_u_data_split_4, 5, data_split(4));
+// @harness props=C08 tier=quick reach=off bound="recv_data(8): request body delivered in two segments cut at byte 7; all body values" stubs="vmm-sys-util raw_recvmsg/raw_sendmsg (ghost stream socket with delivery cuts / partial accepts), close, OwnedFd::drop"
+c08!(c08_u_data_split_7, 5, data_split(7));
+// @harness props=C08 tier=thorough reach=off bound="recv_data(8): request body delivered in two segments cut at byte 3; all body values" stubs="vmm-sys-util raw_recvmsg/raw_sendmsg (ghost stream socket with delivery cuts / partial accepts), close, OwnedFd::drop"
+c08!(c08_u_data_split_3, 5, data_split(3));
+// @harness props=C08 tier=quick reach=off bound="recv_data(8): stream ends after 0 body bytes" stubs="vmm-sys-util raw_recvmsg/raw_sendmsg (ghost stream socket with delivery cuts / partial accepts), close, OwnedFd::drop"
+c08!(c08_u_data_truncated_0, 5, data_truncated(0));
+// @harness props=C08 tier=quick reach=off bound="recv_data(8): stream ends after 5 body bytes" stubs="vmm-sys-util raw_recvmsg/raw_sendmsg (ghost stream socket with delivery cuts / partial accepts), close, OwnedFd::drop"
+c08!(c08_u_data_truncated_5, 5, data_truncated(5));
+// @harness props=C08 tier=thorough reach=off bound="recv_data(8): stream ends after 7 body bytes" stubs="vmm-sys-util raw_recvmsg/raw_sendmsg (ghost stream socket with delivery cuts / partial accepts), close, OwnedFd::drop"
+c08!(c08_u_data_truncated_7, 5, data_truncated(7));
